@@ -136,9 +136,83 @@ let rec c06_queries (t : string list) : c06_query list =
 let c06_react (q : c06_query) : packet option =
   handle_datagram q.cq_entries q.cq_nc q.cq_intf q.cq_src q.cq_port q.cq_data
 
+(* ---- C18 cases: "c18 t0 <os> S <t> <os|-> <dgrams|-> <calls|-> S ..." ---------------------------
+   os      : iface;iface    iface = idx/namehex/4.hex.maskhex
+   dgrams  : dgram;dgram    dgram = idx/4.srchex.port/datahex
+   calls   : call^call      call  = en@kind,kind | dis@kind,kind | reg@<service token>@<0|1> | unreg@keyhex
+                                    | ipint@secs | browse@tyhex
+   kind    : All | IPv4 | IPv6 | LoopbackV4 | LoopbackV6 | Name~hex | Addr~4.hex | IndexV4~n | IndexV6~n *)
+let iface_of_string (s : string) : iface =
+  match split_on '/' s with
+  | [ idx; name; addr ] -> { i_name = bytes_of_hex name; i_index = n_of_dec idx; i_addr = ifaddr_of_string addr }
+  | _ -> failwith ("bad iface " ^ s)
+let ifaces_of_string (s : string) : iface list = if s = "-" then [] else List.map iface_of_string (split_on ';' s)
+let kind_of_string (s : string) : ifkind =
+  match split_on '~' s with
+  | [ "All" ] -> KAll | [ "IPv4" ] -> KIPv4 | [ "IPv6" ] -> KIPv6
+  | [ "LoopbackV4" ] -> KLoopbackV4 | [ "LoopbackV6" ] -> KLoopbackV6
+  | [ "Name"; h ] -> KName (bytes_of_hex h)
+  | [ "Addr"; a ] -> KAddr (ip_of_string a)
+  | [ "IndexV4"; n ] -> KIndexV4 (n_of_dec n)
+  | [ "IndexV6"; n ] -> KIndexV6 (n_of_dec n)
+  | _ -> failwith ("bad kind " ^ s)
+let call_of_string (s : string) : call =
+  match split_on '@' s with
+  | [ "en"; ks ] -> CEnable (nlist ks kind_of_string)
+  | [ "dis"; ks ] -> CDisable (nlist ks kind_of_string)
+  | [ "reg"; svc; auto ] -> CRegister ((entry_of_string svc).e_svc, auto = "1")
+  | [ "unreg"; k ] -> CUnregister (bytes_of_hex k)
+  | [ "ipint"; n ] -> CSetInterval (n_of_dec n)
+  | [ "browse"; t ] -> CBrowse (bytes_of_hex t)
+  | _ -> failwith ("bad call " ^ s)
+let dgram_of_string (s : string) : dgram =
+  match split_on '/' s with
+  | [ idx; src; data ] ->
+    let port = match split_on '.' src with [ _; _; p ] -> n_of_dec p | _ -> failwith "src" in
+    { dg_if = n_of_dec idx; dg_src = ip_of_string src; dg_port = port; dg_data = bytes_of_hex data }
+  | _ -> failwith ("bad dgram " ^ s)
+let rec c18_steps (t : string list) : step list =
+  match t with
+  | [] -> []
+  | "S" :: now :: os :: dgs :: calls :: rest ->
+    { st_now = n_of_dec now; st_os = (if os = "-" then None else Some (ifaces_of_string (if os = "none" then "-" else os)));
+      st_dgrams = (if dgs = "-" then [] else List.map dgram_of_string (split_on ';' dgs));
+      st_calls = (if calls = "-" then [] else List.map call_of_string (split_on '^' calls)) } :: c18_steps rest
+  | _ -> failwith "bad c18 case"
+
+let int_of_nn = int_of_n
+let string_of_obs_sets (l : obs list) : string =
+  let ev = ref [] and tx = ref [] and br = ref [] in
+  List.iter (fun o -> match o with
+    | OSent p -> tx := string_of_packet p :: !tx
+    | OIpAdd a -> ev := ("add." ^ string_of_ip a) :: !ev
+    | OIpDel a -> ev := ("del." ^ string_of_ip a) :: !ev
+    | OFound (ty, i) -> br := ("found/" ^ hex_of_bytes ty ^ "/" ^ hex_of_bytes i) :: !br
+    | ORemoved (ty, i) -> br := ("removed/" ^ hex_of_bytes ty ^ "/" ^ hex_of_bytes i) :: !br
+    | OResolved (ty, i, host, port, addrs) ->
+      (* ScopedIp: an IPv4 address carries the set of interfaces it was learned on, an IPv6 address
+         one interface *)
+      let v4 = List.filter (fun (a, _) -> match a with V4 _ -> true | _ -> false) addrs in
+      let v6 = List.filter (fun (a, _) -> match a with V6 _ -> true | _ -> false) addrs in
+      let v4ips = List.sort_uniq compare (List.map (fun (a, _) -> string_of_ip a) v4) in
+      let v4toks = List.map (fun ipstr ->
+          let ids = List.sort_uniq compare (List.filter_map (fun (a, i) -> if string_of_ip a = ipstr then Some (int_of_nn i) else None) v4) in
+          ipstr ^ "@" ^ String.concat "+" (List.map string_of_int ids)) v4ips in
+      let v6toks = List.sort_uniq compare (List.map (fun (a, i) -> string_of_ip a ^ "@" ^ string_of_int (int_of_nn i)) v6) in
+      br := ("resolved/" ^ hex_of_bytes ty ^ "/" ^ hex_of_bytes i ^ "/" ^ hex_of_bytes host ^ "/" ^ dec_n port ^ "/"
+             ^ String.concat "_" (List.sort compare (v4toks @ v6toks))) :: !br) l;
+  let j sep l = if l = [] then "-" else String.concat sep (List.sort compare l) in
+  Printf.sprintf "ev=%s tx=%s br=%s" (j "," !ev) (j "&" !tx) (j "," !br)
+
+let c18_run (rest : string list) : obs list list =
+  match rest with
+  | t0 :: os :: steps -> run (initial_state (n_of_dec t0) (ifaces_of_string os)) (c18_steps steps)
+  | _ -> failwith "bad c18 case"
+
 let run_case (line : string) : string =
   match split_on ' ' line with
   | "c06" :: rest -> String.concat " | " (List.map (fun q -> string_of_reaction (c06_react q)) (c06_queries rest))
+  | "c18" :: rest -> String.concat " | " (List.map string_of_obs_sets (c18_run rest))
   | _ -> "BADCASE"
 
 (* ---- monitors ----------------------------------------------------------------------------- *)
